@@ -242,6 +242,13 @@ DIRECTED = [
     ("Select(Select(EventDataset(), lambda e: {'pt': e.m, 'x': e.x}), lambda d: d['pt']() + d.x)", False),
     ("Select(Where(Select(EventDataset(), lambda e: {'calc': e.m, 'x': e.x}), lambda d: d.calc() > d.x), lambda d: d.x)", False),
     ("Select(Select(EventDataset(), lambda e: (e.m, e.jets)), lambda t: Select(t[1], lambda j: j.pt + t[0]()))", False),
+    # ... behind a variable that stands for a First(...)
+    ("Select(Select(Where(EventDataset(), lambda e: Count(e.jets) > 0), lambda e: First(Select(e.jets, lambda j: {'p': j.m, 'q': j.eta}))), lambda d: d.p())", False),
+    ("Select(Select(Where(EventDataset(), lambda e: Count(e.jets) > 0), lambda e: First(Select(e.jets, lambda j: {'p': j.m, 'q': j.eta}))), lambda d: d.p(1) + d.q)", False),
+    ("Select(Select(Where(EventDataset(), lambda e: Count(e.jets) > 0), lambda e: (First(Select(e.jets, lambda j: {'p': j.m, 'q': j.eta})), e.met)), lambda t: t[0].p() + t[1])", False),
+    # constant indices counted from the end
+    ("Select(Select(EventDataset(), lambda e: (e.x, e.y)), lambda t: t[-1] + t[-2])", False),
+    ("Select(Where(Select(EventDataset(), lambda e: [e.x, e.jets]), lambda t: t[-2] > 1), lambda t: Count(t[-1]))", False),
 ]
 
 
